@@ -11,7 +11,7 @@ import (
 
 func init() {
 	register(&Prop{
-		ID: "C20", Imports: "Base.Str Model.Core Model.Prog Check.C20", Module: "C20",
+		ID: "C20", Imports: "Base.Str Model.Core Model.Prog Model.Convert Model.Unmarshal Check.UM Check.C20", Module: "C20",
 		Rule:      "a fields collection with at least two entries, or one whose key was overwritten, or two keys of one name; distinct by Coq term",
 		ShardSize: 40,
 		Gen: func(r *Rng, tier string) []Case {
@@ -24,12 +24,39 @@ func init() {
 				cfg := p1Cfg{MaxStmts: 5 + i*8/n, Keys: p1Keys}
 				out = append(out, runC20(genProgFields(r, cfg)))
 			}
+			// restored fields: documents x configurations (accepted ones only)
+			nr := n / 2
+			for i := 0; i < nr*3 && nr > 0; i++ {
+				c := UCase{Cfg: genUCfg(r), Doc: genUDoc(r, 0)}
+				c.Cfg.Strict = false
+				if len(c.Cfg.Reg) > 0 {
+					c.Doc.Kind = c.Cfg.Defs[Pick(r, c.Cfg.Reg)].Kind
+				}
+				for len(c.Doc.Fields) < 2+r.Intn(3) { // field-heavy documents
+					if c.Doc.Fields == nil {
+						c.Doc.Fields = map[string]int{}
+					}
+					name := Pick(r, umNames)
+					c.Doc.Fields[name] = pickValueFor(r, name)
+				}
+				if cs, ok := runC20Restored(c); ok {
+					out = append(out, cs)
+					nr--
+				}
+			}
 			return out
 		},
 		Replay: func(d json.RawMessage) ([]Case, error) {
-			var desc p1Desc
+			var desc struct {
+				Prog []PStmt `json:"prog"`
+				UM   *UCase  `json:"um"`
+			}
 			if err := json.Unmarshal(d, &desc); err != nil {
 				return nil, err
+			}
+			if desc.UM != nil {
+				cs, _ := runC20Restored(*desc.UM)
+				return []Case{cs}, nil
 			}
 			return []Case{runC20(desc.Prog)}, nil
 		},
@@ -111,11 +138,93 @@ func runC20(p []PStmt) Case {
 	for _, n := range c20Names {
 		names = append(names, cStr(n))
 	}
-	coq := fmt.Sprintf("{| c_prog := %s; c_keys := %s; c_names := %s; c_obs := %s |}", w.coqProg(), cList(keys), cList(names), cList(obs))
+	coq := fmt.Sprintf("(CNative {| nc_prog := %s; nc_keys := %s; nc_names := %s; nc_obs := %s |})", w.coqProg(), cList(keys), cList(names), cList(obs))
 	o := fmt.Sprintf("%d collections, largest %d", len(obs), maxLen)
 	if len(panics) > 0 {
 		o += fmt.Sprintf("; PANICS: %v", panics)
 	}
 	return Case{Coq: strings.ReplaceAll(coq, "\n", " "), Desc: mustJSON(p1Desc{Prog: p}), Size: len(p),
 		Nontrivial: maxLen >= 2, Class: fmt.Sprintf("maxlen=%d", maxLen), Summary: progSummary(p), Observed: o}
+}
+
+// runC20Restored unmarshals one document and observes the accessors of the restored
+// error's Fields(); returns false when the document is not accepted.
+func runC20Restored(c UCase) (Case, bool) {
+	base, res := runUMFull(c)
+	if res == nil {
+		return Case{}, false
+	}
+	fs := res.Fields()
+	type ent struct {
+		name  string
+		typed bool
+	}
+	unk := map[string]bool{}
+	var unkNames []string
+	for n := range res.UnknownFields() {
+		unk[n] = true
+		unkNames = append(unkNames, n)
+	}
+	sort.Strings(unkNames)
+	iter := func() []ent {
+		var out []ent
+		for k := range fs.All() {
+			out = append(out, ent{k.String(), !unk[k.String()]})
+		}
+		return out
+	}
+	entCoq := func(es []ent) string {
+		var cs []string
+		for _, e := range es {
+			cs = append(cs, fmt.Sprintf("(%s, %s)", cStr(e.name), cBool(e.typed)))
+		}
+		return cList(cs)
+	}
+	all, all2 := iter(), iter()
+	getSame := true
+	for k, v := range fs.All() {
+		got, ok := fs.Get(k)
+		if !ok || reprOf(got.Value()) != reprOf(v.Value()) {
+			getSame = false
+		}
+	}
+	var decoded []string
+	for n := range c.Doc.Fields {
+		decoded = append(decoded, n)
+	}
+	sort.Strings(decoded)
+	var finds []string
+	for _, n := range append(append([]string{}, decoded...), "zz_absent_name") {
+		var es []ent
+		for _, k := range fs.FindKeys(n) {
+			es = append(es, ent{k.String(), !unk[k.String()]})
+		}
+		finds = append(finds, fmt.Sprintf("(%s, %s)", cStr(n), entCoq(es)))
+	}
+	// a key whose name does not occur in the document
+	getAbsent := true
+	for _, ke := range keyPool[:nBaseKeys] {
+		if _, occurs := c.Doc.Fields[ke.Name]; !occurs {
+			if _, ok := fs.Get(ke.Key); ok {
+				getAbsent = false
+			}
+		}
+	}
+	var un, dn []string
+	for _, n := range unkNames {
+		un = append(un, cStr(n))
+	}
+	for _, n := range decoded {
+		dn = append(dn, cStr(n))
+	}
+	robs := fmt.Sprintf("{| ro_len := %s; ro_zero := %s; ro_all := %s; ro_all2 := %s; ro_get_same := %s; ro_find := %s; ro_get_absent := %s; ro_unknown := %s; ro_decoded := %s |}",
+		cNat(fs.Len()), cBool(fs.IsZero()), entCoq(all), entCoq(all2), cBool(getSame), cList(finds), cBool(getAbsent), cList(un), cList(dn))
+	base.Coq = fmt.Sprintf("(CRestored %s %s)", base.Coq, robs)
+	base.Desc = mustJSON(struct {
+		UM UCase `json:"um"`
+	}{c})
+	base.Class = fmt.Sprintf("restored/len=%d", fs.Len())
+	base.Nontrivial = fs.Len() >= 2
+	base.Observed = fmt.Sprintf("restored fields: len=%d typed=%d unknown=%d", fs.Len(), fs.Len()-len(unkNames), len(unkNames))
+	return base, true
 }
